@@ -31,6 +31,9 @@ impl Chunk {
         NUM_LIVE_CHUNKS.fetch_add(1, Ordering::Relaxed);
         NUM_LIVE_BYTES.fetch_add(storage.len(), Ordering::Relaxed);
 
+        #[cfg(feature = "pkhuong_woodpile_verif")]
+        verif::on_chunk_new(&storage);
+
         Chunk {
             storage: NonNull::from(Box::leak(storage)),
         }
@@ -60,6 +63,11 @@ impl Drop for Chunk {
         for i in 0..capacity {
             unsafe { std::ptr::write_volatile(&mut storage[i] as *mut _ as *mut u8, b'\xFC') };
         }
+
+        // With the verification hooks on, the storage may be parked in a
+        // quarantine (`storage` becomes `None`) instead of being freed.
+        #[cfg(feature = "pkhuong_woodpile_verif")]
+        let storage = verif::on_chunk_drop(storage);
 
         std::mem::drop(storage);
 
@@ -160,5 +168,100 @@ impl Anchor {
         } else {
             Some(Anchor::new(NonZeroUsize::new(1).unwrap(), chunk.clone()))
         }
+    }
+}
+
+/// Verification hooks: a process-wide registry of the address ranges
+/// of live chunks, and an optional quarantine that keeps the storage
+/// of dropped chunks allocated (and poisoned in debug builds) so that
+/// "address not in the registry" is an exact use-after-free test.
+#[cfg(feature = "pkhuong_woodpile_verif")]
+pub mod verif {
+    use std::mem::MaybeUninit;
+    use std::sync::atomic::AtomicBool;
+    use std::sync::atomic::AtomicUsize;
+    use std::sync::atomic::Ordering;
+    use std::sync::Mutex;
+
+    type Storage = Box<[MaybeUninit<u8>]>;
+
+    static LIVE: Mutex<Vec<(usize, usize)>> = Mutex::new(Vec::new());
+    static QUARANTINE: Mutex<Vec<Storage>> = Mutex::new(Vec::new());
+    static QUARANTINE_ENABLED: AtomicBool = AtomicBool::new(false);
+    static MAX_CHUNK_SIZE_SEEN: AtomicUsize = AtomicUsize::new(0);
+    static CHUNKS_CREATED: AtomicUsize = AtomicUsize::new(0);
+
+    pub(super) fn on_chunk_new(storage: &Storage) {
+        let range = storage.as_ptr_range();
+        LIVE.lock()
+            .unwrap()
+            .push((range.start as usize, range.end as usize));
+        MAX_CHUNK_SIZE_SEEN.fetch_max(storage.len(), Ordering::Relaxed);
+        CHUNKS_CREATED.fetch_add(1, Ordering::Relaxed);
+    }
+
+    pub(super) fn on_chunk_drop(storage: Storage) -> Option<Storage> {
+        let range = storage.as_ptr_range();
+        let key = (range.start as usize, range.end as usize);
+        {
+            let mut live = LIVE.lock().unwrap();
+            let idx = live
+                .iter()
+                .position(|x| *x == key)
+                .expect("dropped chunk must be registered");
+            live.swap_remove(idx);
+        }
+
+        if QUARANTINE_ENABLED.load(Ordering::Relaxed) {
+            QUARANTINE.lock().unwrap().push(storage);
+            None
+        } else {
+            Some(storage)
+        }
+    }
+
+    /// Returns the `[start, end)` address ranges of all live chunks.
+    #[must_use]
+    pub fn live_chunks() -> Vec<(usize, usize)> {
+        LIVE.lock().unwrap().clone()
+    }
+
+    /// Determines whether `[start, start + len)` lies inside one live chunk.
+    #[must_use]
+    pub fn is_live(start: usize, len: usize) -> bool {
+        let end = start + len;
+        LIVE.lock()
+            .unwrap()
+            .iter()
+            .any(|(lo, hi)| (*lo <= start) & (end <= *hi))
+    }
+
+    /// Turns the quarantine on or off (off by default).
+    pub fn set_quarantine(enabled: bool) {
+        QUARANTINE_ENABLED.store(enabled, Ordering::Relaxed);
+    }
+
+    /// Frees everything in the quarantine; returns the number of chunks freed.
+    pub fn drain_quarantine() -> usize {
+        let parked = std::mem::take(&mut *QUARANTINE.lock().unwrap());
+        parked.len()
+    }
+
+    /// Returns the size of the largest chunk created since the last reset.
+    #[must_use]
+    pub fn max_chunk_size_seen() -> usize {
+        MAX_CHUNK_SIZE_SEEN.load(Ordering::Relaxed)
+    }
+
+    /// Returns the number of chunks created since the last reset.
+    #[must_use]
+    pub fn chunks_created() -> usize {
+        CHUNKS_CREATED.load(Ordering::Relaxed)
+    }
+
+    /// Resets the `max_chunk_size_seen` / `chunks_created` statistics.
+    pub fn reset_stats() {
+        MAX_CHUNK_SIZE_SEEN.store(0, Ordering::Relaxed);
+        CHUNKS_CREATED.store(0, Ordering::Relaxed);
     }
 }
